@@ -1,10 +1,14 @@
 use core::mem::ManuallyDrop;
 use std::prelude::v1::*;
 
-// Verification hook: the Kani compiler overrides `assert!` through `#[macro_use]`, which is
-// ambiguous with the glob import above. Only `cfg(kani)` builds see this line.
+// Verification hook: the Kani compiler overrides the assertion macros through `#[macro_use]`, which
+// is ambiguous with the glob import of the std prelude above. Only `cfg(kani)` builds see this.
 #[cfg(kani)]
-use core::assert;
+#[allow(unused_imports)]
+use core::{
+    assert, assert_eq, assert_ne, debug_assert, debug_assert_eq, debug_assert_ne, panic,
+    unreachable,
+};
 
 #[repr(C)]
 #[cfg_attr(feature = "abi_stable", derive(::abi_stable::StableAbi))]
